@@ -1,6 +1,7 @@
 import StatimeModel.Model.TimeDriver
 import StatimeModel.Model.WireDriver
 import StatimeModel.Model.PortDriver
+import StatimeModel.Model.Overlay
 /-
 model-driver: line protocol, ops in (stdin), canonical observations out (stdout).
 One output line per input line (multi-part outputs are joined with " ; ").
@@ -9,12 +10,16 @@ open Statime
 
 structure DState where
   inst : Option Inst := none
+  ovl : Option OvlState := none
 
 def stepLine (st : DState) (line : String) : DState × String :=
   match words line with
   | "TIME" :: rest => (st, timeLine rest)
   | "DEC" :: rest => (st, decLine rest)
   | "CMP" :: rest => (st, cmpLine rest)
+  | "OVL" :: rest =>
+    let (o, out) := ovlLine st.ovl rest
+    ({ st with ovl := o }, out)
   | [] => (st, "bad-op")
   | ws =>
     let (i, o) := instLine st.inst ws
